@@ -27,10 +27,14 @@ type Env struct {
 	local   bool
 	pkg     string
 	guard   string
+	fvBind  map[string]ssa.Value // call of a closure: captured-variable name -> bound value (closurefv.go)
+	ownFn   bool                 // clause of the function under verification (captured variables resolvable)
+	from    *ssa.BasicBlock      // effects.go: `loop k ensures`: locals are resolved at the end of this block
+	prevOf  *headerSnap          // effects.go: state for prev()
 }
 
 func (vc *VC) newEnv(st, old *State, header *ssa.BasicBlock) *Env {
-	e := &Env{vc: vc, vars: map[string]SV{}, st: st, old: old, header: header, local: true, guard: "true"}
+	e := &Env{vc: vc, vars: map[string]SV{}, st: st, old: old, header: header, local: true, guard: "true", ownFn: true}
 	if vc.con != nil {
 		e.pkg = vc.con.Pkg
 	}
@@ -221,7 +225,11 @@ func (e *Env) eval(x Expr) SV {
 }
 
 func arrayElemSort(s string) string {
-	// "(Array Int X)" -> X
+	// "(Array K X)" -> X
+	el := listElems(s)
+	if len(el) == 3 {
+		return el[2]
+	}
 	s = strings.TrimPrefix(s, "(Array Int ")
 	return strings.TrimSuffix(s, ")")
 }
@@ -259,16 +267,33 @@ func (e *Env) ident(name string) SV {
 	if v, ok := e.vars[name]; ok {
 		return v
 	}
+	if name == "$sel" {
+		return Sc{"Int", vc.get(e.st, "G|sel", "Int")}
+	}
+	if e.local && e.from != nil {
+		if v := vc.resolveAt(name, e.from); v != nil {
+			return v
+		}
+	}
 	if e.local && e.header != nil {
 		if v := vc.resolveLocal(name, e.header, e.st); v != nil {
 			return v
 		}
+	}
+	if v := e.freeVarIdent(name); v != nil {
+		if t := e.freeVarType(name); t != nil {
+			return vc.typedSV(v, t) // effects.go: captured maps usable as m[k], has(m,k)
+		}
+		return v
 	}
 	if _, ret, ok := vc.eng.Prelude.Sig(name); ok {
 		return Sc{ret, name}
 	}
 	if g, ok := e.ghost(name); ok {
 		return g
+	}
+	if e.from != nil {
+		panic(unresolved(name))
 	}
 	e.fail("unknown identifier %q", name)
 	return nil
@@ -292,6 +317,25 @@ func (vc *VC) resolveLocal(name string, h *ssa.BasicBlock, st *State) SV {
 		}
 		return nil
 	}
+	if strings.HasPrefix(name, "$idx") && len(name) > 4 {
+		// $idxK (w-c19): $idx of the enclosing range loop number K, usable in invariants of loops nested in it
+		// (inside the body of loop K it is the index of the current iteration of loop K)
+		if k, err := strconv.Atoi(name[4:]); err == nil {
+			for hb, li := range vc.loops {
+				if li.index != k || !(hb == h || (li.body[h] && hb.Dominates(h))) {
+					continue
+				}
+				for _, in := range hb.Instrs {
+					if phi, ok := in.(*ssa.Phi); ok && phi.Comment == "rangeindex" {
+						if v, ok := vc.vals[phi].(Sc); ok {
+							return Sc{"Int", app("+", v.T, "1")}
+						}
+					}
+				}
+			}
+		}
+		return nil
+	}
 	if name == "$seen" {
 		for k := range st.vars {
 			if strings.HasPrefix(k, "G|seen.") {
@@ -306,7 +350,7 @@ func (vc *VC) resolveLocal(name string, h *ssa.BasicBlock, st *State) SV {
 				if dr, ok := d.Instrs[i].(*ssa.DebugRef); ok && !dr.IsAddr {
 					if id, ok := dr.Expr.(*ast.Ident); ok && id.Name == name {
 						if v, ok := vc.vals[dr.X]; ok {
-							return v
+							return vc.typedSV(v, dr.X.Type())
 						}
 						if c, ok := dr.X.(*ssa.Const); ok {
 							return vc.constSV(c)
@@ -336,7 +380,7 @@ func (vc *VC) resolveLocal(name string, h *ssa.BasicBlock, st *State) SV {
 						return v
 					}
 				} else if p, ok := vc.vals[a].(Pt); ok {
-					return vc.readHeapPtr(st, p)
+					return vc.typedSV(vc.readHeapPtr(st, p), a.Type().(*types.Pointer).Elem())
 				}
 			}
 		}
@@ -344,7 +388,7 @@ func (vc *VC) resolveLocal(name string, h *ssa.BasicBlock, st *State) SV {
 	for _, fv := range vc.fn.FreeVars {
 		if fv.Name() == name {
 			if v, ok := st.locals[fv]; ok {
-				return v
+				return vc.typedSV(v, fv.Type().(*types.Pointer).Elem())
 			}
 		}
 	}
@@ -408,6 +452,9 @@ func (e *Env) field(v SV, name string) SV {
 }
 
 func (e *Env) nilLike(v SV) SV {
+	if m, ok := v.(mapSV); ok { // w-c04
+		v = m.Sc
+	}
 	switch x := v.(type) {
 	case Sc:
 		switch x.S {
@@ -510,6 +557,9 @@ func typeNameOf(x Expr) string {
 }
 
 func (e *Env) nilEq(v SV) string {
+	if m, ok := v.(mapSV); ok { // w-c04: maps are references, nil = 0
+		v = m.Sc
+	}
 	switch x := v.(type) {
 	case Sc:
 		switch x.S {
@@ -524,6 +574,8 @@ func (e *Env) nilEq(v SV) string {
 		return sEq(x.Ref, "0")
 	case Pt:
 		return sEq(x.Ref, "0")
+	case mapSV:
+		return sEq(x.ref, "0")
 	}
 	e.fail("nil compared with a value that cannot be nil")
 	return ""
@@ -572,6 +624,43 @@ func (e *Env) call(n ECall) SV {
 			return Sc{"Int", vc.mapLen(v.typ, v.ref, e.st)}
 		}
 		e.fail("len of a value that has no length")
+	case "fnresult":
+		return e.fnResult(n)
+	case "lastcall":
+		return e.lastCall(n)
+	case "fnval":
+		return e.fnvalSpec(n) // fnis.go
+	case "prev":
+		// prev(e): e in the state at the loop header of the current iteration (`loop k ensures` only)
+		snap := e.prevOf
+		if len(n.Args) == 2 {
+			// prev(e, k): state at the header of the enclosing loop k (current iteration of that loop)
+			k, err := strconv.Atoi(n.Args[1].(EInt).V)
+			if err == nil && k >= 0 && k < len(vc.loopOrd) && vc.hdr[vc.loopOrd[k]] == nil && vc.dry > 0 {
+				return e.eval(n.Args[0]) // dry run (write-set discovery only)
+			}
+			if err != nil || k < 0 || k >= len(vc.loopOrd) || vc.hdr[vc.loopOrd[k]] == nil {
+				e.fail("prev(e, k): loop %v has not been entered at this point", n.Args[1])
+			}
+			snap = vc.hdr[vc.loopOrd[k]]
+		}
+		if snap == nil {
+			return e.eval(n.Args[0])
+		}
+		o := *e
+		o.st = snap.st
+		o.from = nil
+		o.header = snap.h
+		saved := map[*ssa.Phi]SV{}
+		for phi, v := range snap.phis {
+			saved[phi] = vc.vals[phi]
+			vc.vals[phi] = v
+		}
+		r := o.eval(n.Args[0])
+		for phi, v := range saved {
+			vc.vals[phi] = v
+		}
+		return r
 	case "cap":
 		if v, ok := e.eval(n.Args[0]).(Sl); ok {
 			return Sc{"Int", v.Cap}
@@ -592,6 +681,19 @@ func (e *Env) call(n ECall) SV {
 		s := sortsOf(sl.Elem)[leaf]
 		h := vc.get(e.st, hsName(sl.Elem, leaf), heapSort(s))
 		return Sc{rowSort(s), app("select", h, sl.Ref)}
+	case "cur":
+		// cur(x) (w-c04): the CURRENT value of the Go variable x at the loop header, also when x is a parameter
+		// that the function re-assigns (a bare parameter name always denotes the value at entry)
+		id, ok := n.Args[0].(EIdent)
+		if !ok || len(n.Args) != 1 {
+			e.fail("cur() needs a variable name")
+		}
+		if e.local && e.header != nil {
+			if v := vc.resolveLocal(id.Name, e.header, e.st); v != nil {
+				return v
+			}
+		}
+		return e.ident(id.Name)
 	case "fresh":
 		// fresh(s): the row was allocated by this call
 		switch v := e.eval(n.Args[0]).(type) {
@@ -610,6 +712,24 @@ func (e *Env) call(n ECall) SV {
 		}
 	case "tagof":
 		return Sc{"Int", app("tagof", e.eval(n.Args[0]).(Sc).T)}
+	case "same":
+		// same(a,b): identical values (SMT equality on every leaf; for floats this is bit identity, unlike ==)
+		la, lb := toLeaves(e.eval(n.Args[0])), toLeaves(e.eval(n.Args[1]))
+		if len(la) != len(lb) {
+			e.fail("same() on values of different shapes")
+		}
+		var cs []string
+		for i := range la {
+			cs = append(cs, sEq(la[i], lb[i]))
+		}
+		return Sc{"Bool", sAnd(cs...)}
+	case "store":
+		// store(array, key, value): SMT array update (for ghost sets/maps)
+		a, ok := e.eval(n.Args[0]).(Sc)
+		if !ok || !strings.HasPrefix(a.S, "(Array") {
+			e.fail("store() needs an SMT array")
+		}
+		return Sc{a.S, app("store", a.T, toLeaves(e.eval(n.Args[1]))[0], toLeaves(e.eval(n.Args[2]))[0])}
 	case "tag":
 		id, ok := n.Args[0].(EIdent)
 		var tn string
